@@ -423,6 +423,9 @@ impl PartialOrd for Number {
                 Number::Rational(rhs) => {
                     if lhs.to_i32().is_some() {
                         Rational32::from_integer(*lhs as i32).partial_cmp(rhs)
+                    } else if *lhs < 0 {
+                        // beyond 32 bits on the negative side: below every rational
+                        Some(Ordering::Less)
                     } else {
                         Some(Ordering::Greater)
                     }
@@ -434,6 +437,7 @@ impl PartialOrd for Number {
                 Number::Float(rhs) => (**lhs).to_f64().unwrap().partial_cmp(rhs),
                 Number::Rational(rhs) => match lhs.to_i32() {
                     Some(lhs) => Rational32::from_integer(lhs).partial_cmp(rhs),
+                    None if lhs.is_negative() => Some(Ordering::Less),
                     None => Some(Ordering::Greater),
                 },
             },
@@ -447,6 +451,9 @@ impl PartialOrd for Number {
                 Number::Fixnum(rhs) => {
                     if rhs.to_i32().is_some() {
                         lhs.partial_cmp(&Rational32::from_integer(*rhs as i32))
+                    } else if *rhs < 0 {
+                        // beyond 32 bits on the negative side: below every rational
+                        Some(Ordering::Greater)
                     } else {
                         Some(Ordering::Less)
                     }
@@ -454,6 +461,7 @@ impl PartialOrd for Number {
                 Number::Float(rhs) => lhs.to_f64().unwrap().partial_cmp(rhs),
                 Number::BigInt(rhs) => match rhs.to_i32() {
                     Some(rhs) => lhs.partial_cmp(&Rational32::from_integer(rhs)),
+                    None if rhs.is_negative() => Some(Ordering::Greater),
                     None => Some(Ordering::Less),
                 },
                 Number::Rational(rhs) => lhs.partial_cmp(rhs),
